@@ -46,39 +46,57 @@ var skTuples [][]*Term
 // positive positions are replaced by their instances at the given constants (same sort).
 func instantiateAt(a *Term, sks []*Term) []*Term {
 	var out []*Term
-	// quantifiers over several variables: instantiate positionally at the skolem tuples of goal
-	// quantifiers with the same arity and sorts
-	for _, tup := range skTuples {
-		changed := false
-		var pos func(t *Term) *Term
-		pos = func(t *Term) *Term {
-			switch {
-			case t.Op == "forall" && len(t.Bound) == len(tup):
-				sub := map[int]*Term{}
-				for i, b := range t.Bound {
-					if b.Sort != tup[i].Sort {
-						return t
+	// quantifiers over several variables: instantiate at every combination of goal skolems of the
+	// right sorts (at most 16 combinations), which covers positional tuples and nested goal quantifiers
+	var multi func(t *Term) []*Term
+	combos := func(bound []*Term) []map[int]*Term {
+		res := []map[int]*Term{{}}
+		for _, b := range bound {
+			var next []map[int]*Term
+			for _, sk := range sks {
+				if sk.Sort != b.Sort {
+					continue
+				}
+				for _, m := range res {
+					nm := map[int]*Term{}
+					for k, v := range m {
+						nm[k] = v
 					}
-					sub[b.id] = tup[i]
+					nm[b.id] = sk
+					next = append(next, nm)
 				}
-				changed = true
-				return Subst(t.Args[0], sub)
-			case t.Op == "and" && t.Bound == nil:
-				na := make([]*Term, len(t.Args))
-				for i, x := range t.Args {
-					na[i] = pos(x)
-				}
-				return And(na...)
-			case t.Op == "=>" && len(t.Args) == 2:
-				return Implies(t.Args[0], pos(t.Args[1]))
 			}
-			return t
+			res = next
+			if len(res) == 0 || len(res) > 16 {
+				return nil
+			}
 		}
-		r := pos(a)
-		if changed {
-			out = append(out, r)
-		}
+		return res
 	}
+	multi = func(t *Term) []*Term {
+		switch {
+		case t.Op == "forall" && len(t.Bound) > 1:
+			var r []*Term
+			for _, sub := range combos(t.Bound) {
+				r = append(r, Subst(t.Args[0], sub))
+			}
+			return r
+		case t.Op == "and" && t.Bound == nil:
+			var r []*Term
+			for _, x := range t.Args {
+				r = append(r, multi(x)...)
+			}
+			return r
+		case t.Op == "=>" && len(t.Args) == 2:
+			var r []*Term
+			for _, x := range multi(t.Args[1]) {
+				r = append(r, Implies(t.Args[0], x))
+			}
+			return r
+		}
+		return nil
+	}
+	out = append(out, multi(a)...)
 	for _, sk := range sks {
 		changed := false
 		var pos func(t *Term) *Term
